@@ -478,13 +478,20 @@ func (h *Session) DHCPv4Update(mac net.HardwareAddr, ip netip.Addr, name NameEnt
 	host, _ := h.findOrCreateHostWithLock(Addr{MAC: mac, IP: ip})
 	host.UpdateDHCP4Name(name)
 
+	frame := Frame{Host: host}
 	host.MACEntry.Row.Lock()
-	defer host.MACEntry.Row.Unlock()
-
 	host.MACEntry.IP4Offer = host.Addr.IP // hack: keep IP to lookup in notify
 	if !host.Online {
 		h.onlineTransition(host)
 	}
+	// Always look for superseded addresses: Parse may already have made the transition for the
+	// DHCP frame that triggered this update, and the notify below clears the pending state.
+	frame.flags = frame.markOnlineTransition()
+	host.MACEntry.Row.Unlock()
+
+	// Announce the transition now. A later Notify only reports it completely if it carries
+	// a DHCP frame of this mac; any other frame would lose the offline notification of the previous IP.
+	h.notify(frame)
 	return nil
 }
 
